@@ -2,7 +2,7 @@
 import { mulberry32, ModuleBuilder, held, violated, inconclusive, short, optLabel } from './lib.mjs';
 import { A, C, renderElement, isComponentTag } from '../runtime/spec.mjs';
 import { evalSemantic, firstDiff, eraseHints, effectiveOptions } from './semantic.mjs';
-import { makeAttr, newAttrState, makeTag, TAG_FORMS } from './elem.mjs';
+import { makeAttr, newAttrState, makeTag, TAG_FORMS, PATTERNS } from './elem.mjs';
 import { makeKids, makeVSlots, wrapContext, buildLoop, checkLoopVariant, HOSTS, VSLOTS, LOOP_CONTEXTS } from './C03.mjs';
 import { makeDirective, SPELLINGS } from './C04.mjs';
 import { makeModel, hostOf } from './C05.mjs';
@@ -11,7 +11,7 @@ export const id = 'C11';
 
 const LOGGING_ATTRS = ['identUnbound', 'member', 'call', 'template', 'arrow', 'objDyn', 'arrDyn', 'cond', 'spreadIdent', 'spreadCall', 'spreadObjLit',
   'classExpr', 'classArr', 'styleExpr', 'onOther', 'onUpdate', 'onObj', 'nativeOnObj', 'strPlain', 'valueless', 'classStr', 'key', 'ref', 'jsxElBraced'];
-const TAGS = ['div', 'importDefault', 'unboundPascal', 'member1', 'KeepAlive', 'Fragment', 'pattern'].map((f) => TAG_FORMS.find((t) => t.form === f || t.name === f));
+const TAGS = [...['div', 'importDefault', 'unboundPascal', 'member1', 'KeepAlive', 'Fragment'].map((f) => TAG_FORMS.find((t) => t.form === f || t.name === f)), ...TAG_FORMS.filter((t) => t.form === 'pattern'), TAG_FORMS.find((t) => t.form === 'importDefaultFragLike')];
 const KID_SHAPES = ['none', 'identUnbound', 'call', 'memberExpr', 'cond', 'mixed1', 'mixed2', 'spread', 'spreadCall', 'nestedComp', 'element', 'text', 'arrow', 'object', 'optMember', 'optMemberDeep', 'template', 'binary', 'newExpr', 'arrayLit', 'logicalOr', 'parenCall', 'awaitLike', 'elementWithDirective', 'elementWithVModel'];
 const KID_KINDS = ['vnode', 'string', 'slots', 'slotfn', 'array'];
 
@@ -74,7 +74,7 @@ function buildModelCase(rng) {
 
 const OPTS = [];
 for (const mergeProps of [true, false]) for (const transformOn of [false, true]) for (const enableObjectSlots of [true, false]) for (const optimize of [false, true]) {
-  OPTS.push({ mergeProps, transformOn, enableObjectSlots, optimize, customElementPatterns: ['^i-'] });
+  OPTS.push({ mergeProps, transformOn, enableObjectSlots, optimize, customElementPatterns: optimize ? ['^i-'] : PATTERNS });
 }
 
 export function* generate({ tier, seed }) {
